@@ -119,15 +119,28 @@ Definition known_F1a : list row :=
 Definition known_F1b : list row :=
   [ ROpt "error_handlers" "redirect" "code" ].      (* enum {301,302} only in the schema *)
 
-Definition known_F1 : list row := known_F1a ++ known_F1b.
+(** found when the tables were widened to nested objects: the generic
+    authenticator's loader requires [subject.id], the schema does not; the
+    schema accepts unlisted options inside [assertions] ("<any>": an option that
+    is not listed), the loader rejects them *)
+Definition known_F1c : list row :=
+  [ ROpt "authenticators" "generic" "subject.id";
+    ROpt "authenticators" "jwt" "assertions.<any>";
+    ROpt "authenticators" "oauth2_introspection" "assertions.<any>" ].
+
+Definition known_F1 : list row := known_F1a ++ known_F1b ++ known_F1c.
+
+(** flipped by hand when the repair of group c is applied to /repo *)
+Definition fixed_F1c : bool := false.
 
 (** [fa]/[fb]: the repair of the group is in the tree, its rows are no longer excused *)
 Definition guard_F1 (fa fb : bool) (r : row) : bool :=
-  existsb (row_eqb r) ((if fa then [] else known_F1a) ++ (if fb then [] else known_F1b)).
+  existsb (row_eqb r) ((if fa then [] else known_F1a) ++ (if fb then [] else known_F1b) ++
+                       (if fixed_F1c then [] else known_F1c)).
 
 (** flipped by hand when a repair is applied to /repo *)
-Definition fixed_F1a : bool := false.
-Definition fixed_F1b : bool := false.
+Definition fixed_F1a : bool := true.
+Definition fixed_F1b : bool := true.
 
 Definition disagreements (s l : table) : list row :=
   filter (fun r => negb (row_agrees s l r)) (all_rows s l).
@@ -137,8 +150,8 @@ Definition tables_ok (fa fb : bool) (s l : table) : bool :=
   forallb (fun r => guard_F1 fa fb r || row_agrees s l r) (all_rows s l).
 
 (** every recorded row is a row of the tables on which they disagree (no stale guard) *)
-Definition recorded_all_disagree (s l : table) : bool :=
-  forallb (fun r => existsb (row_eqb r) (disagreements s l)) known_F1.
+Definition recorded_all_disagree (known : list row) (s l : table) : bool :=
+  forallb (fun r => existsb (row_eqb r) (disagreements s l)) known.
 
 (* ------------------------------------------------------------------ acceptance prediction *)
 
@@ -148,7 +161,8 @@ Definition recorded_all_disagree (s l : table) : bool :=
 Record probe := {
   p_kind : string; p_type : string;
   p_config : bool;                       (* the definition has a config object *)
-  p_opts : list (string * string) }.
+  p_opts : list (string * string);       (* options set on top of the base, with their values *)
+  p_missing : list string }.             (* options of the base left out *)
 
 (** decimal text of an integer *)
 Fixpoint digits_to_N (acc : N) (s : string) : option N :=
@@ -178,6 +192,10 @@ Definition accepts (t : table) (p : probe) : bool :=
   | None => false
   | Some m =>
       (p_config p || negb (m_cfg_req m)) &&
+      forallb (fun n => match find_opt m n with
+                        | Some o => match o_req o with RYes => false | _ => true end
+                        | None => true
+                        end) (p_missing p) &&
       forallb (fun nv => match find_opt m (fst nv) with
                          | Some o => value_ok (o_constr o) (snd nv)
                          | None => false
@@ -186,7 +204,9 @@ Definition accepts (t : table) (p : probe) : bool :=
 
 Definition probe_rows (p : probe) : list row :=
   RType (p_kind p) (p_type p) ::
-  (if p_config p then [] else [RCfg (p_kind p) (p_type p)]) ++ map (fun nv => ROpt (p_kind p) (p_type p) (fst nv)) (p_opts p).
+  (if p_config p then [] else [RCfg (p_kind p) (p_type p)]) ++
+  map (fun nv => ROpt (p_kind p) (p_type p) (fst nv)) (p_opts p) ++
+  map (fun n => ROpt (p_kind p) (p_type p) n) (p_missing p).
 
 Definition probe_guard (fa fb : bool) (p : probe) : bool := existsb (guard_F1 fa fb) (probe_rows p).
 
